@@ -109,11 +109,31 @@ func genStructure(out, repo string) {
 					}
 					return true
 				})
+				// does the function sort anything?  A site is described by the map and by whether the function that
+				// iterates it sorts (not by the function's name or by the way the keys are collected), so that moving
+				// the loop into a helper or replacing maps.Keys by a range loop does not change the fact
+				sorts := "unsorted"
+				ast.Inspect(fd.Body, func(n ast.Node) bool {
+					if c, ok := n.(*ast.CallExpr); ok {
+						if se, ok := c.Fun.(*ast.SelectorExpr); ok {
+							if id, ok := se.X.(*ast.Ident); ok {
+								if pn, ok := info.Uses[id].(*types.PkgName); ok {
+									path := pn.Imported().Path()
+									if path == "sort" || strings.HasSuffix(path, "slices") && (strings.HasPrefix(se.Sel.Name, "Sort") || se.Sel.Name == "Sorted" || se.Sel.Name == "SortedFunc") {
+										sorts = "sorted"
+									}
+								}
+							}
+						}
+					}
+					return true
+				})
+				_ = fn
 				ast.Inspect(fd.Body, func(n ast.Node) bool {
 					switch n := n.(type) {
 					case *ast.RangeStmt:
 						if isMap(n.X) {
-							mapSites = append(mapSites, site{rel, fn, "range " + describe(info, n.X)})
+							mapSites = append(mapSites, site{rel, sorts, "iterate " + describe(info, n.X)})
 						}
 					case *ast.CallExpr:
 						if se, ok := n.Fun.(*ast.SelectorExpr); ok {
@@ -121,7 +141,11 @@ func genStructure(out, repo string) {
 								if pn, ok := info.Uses[id].(*types.PkgName); ok {
 									path := pn.Imported().Path()
 									if strings.HasSuffix(path, "maps") && (se.Sel.Name == "Keys" || se.Sel.Name == "Values" || se.Sel.Name == "Clone") && len(n.Args) == 1 {
-										mapSites = append(mapSites, site{rel, fn, "maps." + se.Sel.Name + " " + describe(info, n.Args[0])})
+										if se.Sel.Name == "Clone" {
+											mapSites = append(mapSites, site{rel, "copy", "clone " + describe(info, n.Args[0])})
+										} else {
+											mapSites = append(mapSites, site{rel, sorts, "iterate " + describe(info, n.Args[0])})
+										}
 									}
 									if path == "time" && se.Sel.Name == "Now" || path == "math/rand" || path == "math/rand/v2" || path == "unsafe" || path == "crypto/rand" {
 										clocks = append(clocks, site{rel, fn, path + "." + se.Sel.Name})
